@@ -191,6 +191,26 @@ def replay(contract, label, model, note=""):
     elif name == "reset":
         tries.append(dict(op="reset", fill=0))
         tries.append(dict(op="reset", fill=None))
+    elif name == "defaults":
+        # the defaults contract: every operation at its documented default arguments (explicitly passed here)
+        L = max(1, min(int(g("L", 1)), N))
+        tries += [dict(op="readrange", length=L, offset=1, forward=False), dict(op="read", offset=1), dict(op="write", offset=0, inplace=False), dict(op="writerange", length=L, offset=0, forward=False, inplace=False), dict(op="push", inplace=False), dict(op="incr", pos=1), dict(op="decr", pos=1), dict(op="pop")]
+        for t in list(tries):
+            op = t.pop("op")
+            f = run_op(N, ptr, op, dtype=dd, obs_dtype=od, **t)
+            if f is not None:
+                return {"reproduced": True, "failure": f, "concrete": f["input"]}
+        tried = 0
+        for nm in ("readrange", "writerange", "read", "write", "push", "incr", "decr", "pop"):
+            for N2 in (1, 2, 3):
+                for p2 in range(N2):
+                    for t in tries_for(nm, contract, N2):
+                        tried += 1
+                        op = t.pop("op")
+                        f = run_op(N2, p2, op, dtype=dd, obs_dtype=od, **t)
+                        if f is not None:
+                            return {"reproduced": True, "failure": f, "concrete": f["input"], "search": {"points_tried": tried}}
+        return {"reproduced": False, "search": {"points_tried": tried}}
     else:
         return None
     for t in tries:
